@@ -15,6 +15,7 @@ from symx.core import And_, Or_, Not_, Iff_, eq_, is_sym
 from symx.edz import fresh_circuit, Probe, Settable
 from symx import vloop
 import edzed
+from harness.C04 import drive
 
 PROPERTY = 'C18'
 LEVEL = 'model_checking'
@@ -99,7 +100,7 @@ def match_logs(env, got, ref):
     return best
 
 
-def scen_repeat(env, variant, count, nev):
+def scen_repeat(env, variant, count, nev, presched=False):
     circ = fresh_circuit()
     loopref = []
     clock = lambda: loopref[0].time()
@@ -129,9 +130,10 @@ def scen_repeat(env, variant, count, nev):
         if variant == 'implicit':
             # the sender's initialisation is an output assignment: the first arrival (at start-up)
             ref.arrive(loop.time(), 'init')
-        for i in range(nev):
-            env.assume(gaps[i] <= iv * 3.5, 'gap <= 3.5 intervals')
-            await asyncio.sleep(gaps[i])
+        for g in gaps:
+            env.assume(g <= iv * 3.5, 'gap <= 3.5 intervals')
+
+        def step(i):
             now = loop.time()
             tie = ref.advance(now, env)
             matching = True
@@ -142,7 +144,7 @@ def scen_repeat(env, variant, count, nev):
             if not matching:
                 ret = edzed.ExtEvent(r, 'other').send(v)
                 env.check('ignored-type', ret is None and circ.error is None)
-                continue
+                return True
             if tie:
                 # the old event's repetition is due at this very instant: it may have been delivered
                 # already, be delivered before the new event, or be dropped - never after it
@@ -153,6 +155,8 @@ def scen_repeat(env, variant, count, nev):
             env.check('sync-forward', len(p.log) >= n0 + 1 and p.log[-1][2]['repeat'] == 0
                       and p.log[-1][2]['value'] == v, info=lambda: p.log[n0:])
             env.check('output', r.output == 0)
+
+        await drive(loop, gaps, step, presched)
         env.assume(tail <= iv * 3.5, 'tail <= 3.5 intervals')
         await asyncio.sleep(tail)
         now = loop.time()
@@ -241,9 +245,10 @@ def shards(tier):
     out = []
     for variant in ('explicit', 'implicit'):
         for count in (None, 0, 1, 3):
-            out.append({'name': f'{variant} count={count} n={nev}', 'scenario': 'scen_repeat',
-                        'params': {'variant': variant, 'count': count, 'nev': nev},
-                        'cost': 10 if count in (None, 3) else 2})
+            for ps in (False, True):
+                out.append({'name': f'{variant} count={count} n={nev}' + (' presched' if ps else ''), 'scenario': 'scen_repeat',
+                            'params': {'variant': variant, 'count': count, 'nev': nev, 'presched': ps},
+                            'cost': 10 if count in (None, 3) else 2})
     for c1 in (None, 0, 1):
         for c2 in (None, 0, 1, 3):
             out.append({'name': f'chain c1={c1} c2={c2}', 'scenario': 'scen_chain', 'params': {'c1': c1, 'c2': c2}})
